@@ -811,6 +811,7 @@ impl World {
             "objapi" => self.op_objapi(r, op),
             "failcommit" => self.op_failcommit(r, op),
             "faults" => self.op_faults(r, op["seed"].as_u64().unwrap()),
+            "replay_elsewhere" => self.op_replay_elsewhere(r, op["to"].as_u64().unwrap() as usize % self.reps.len()),
             "deep" => self.op_deep(r, op["depth"].as_u64().unwrap() as usize, op["where"].as_str().unwrap_or("doc")),
             "sync" => self.op_sync(),
             _ => panic!("unknown op {}", kind),
@@ -1634,6 +1635,52 @@ impl World {
         }
         for (p, w) in fails {
             self.fail(p, w);
+        }
+    }
+
+    /// The stage exported on one replica is replayed on ANOTHER replica, which may not know the revisions the
+    /// staged changes build on (known finding D24: used only by the pinned history, never generated).  Afterwards
+    /// every operation must still return.
+    fn op_replay_elsewhere(&mut self, r: usize, to: usize) {
+        if r == to {
+            return;
+        }
+        let exported = match self.reps[r].m.as_ref().and_then(|m| m.stage().ok()) {
+            Some(s) => s,
+            None => return,
+        };
+        let doc = self.reps[r].last_doc.clone();
+        let m = match self.reps[to].m.as_ref() {
+            Some(m) => m,
+            None => return,
+        };
+        if m.has_staging() {
+            return;
+        }
+        let rp = catch_unwind(AssertUnwindSafe(|| m.replay_stage(&exported).is_ok()));
+        let mut aborted: Vec<String> = vec![];
+        if rp.is_err() {
+            aborted.push("replay_stage".into());
+        }
+        let m = self.reps[to].m.as_ref().unwrap();
+        for u in m.get_all_objects() {
+            if catch_unwind(AssertUnwindSafe(|| m.get_value(&u, None).is_ok())).is_err() {
+                aborted.push(format!("get_value({})", u));
+                break;
+            }
+        }
+        if let Some(d) = doc.as_object() {
+            if catch_unwind(AssertUnwindSafe(|| m.update(d.clone()).is_ok())).is_err() {
+                aborted.push("update".into());
+            }
+        }
+        if catch_unwind(AssertUnwindSafe(|| m.read(None).is_ok())).is_err() {
+            aborted.push("read".into());
+        }
+        if !aborted.is_empty() {
+            // the replica may be left with poisoned locks: it is not used any further
+            self.reps[to].m = None;
+            self.fail("C08", format!("after replay_stage of an export made on another replica (the revisions it builds on are unknown here) these operations abort: {}", aborted.join(", ")));
         }
     }
 
